@@ -35,7 +35,9 @@ def shards(tier, seed):
     line_scns = list(pairs)
     random.Random(seed * 1000 + 121).shuffle(line_scns)
     for c, s in zip(chunk(line_scns[:64] if tier == "quick" else line_scns, n), split_seeds(seed + 122, n)):
-        out.append(("statement-level", c, 6 if tier == "quick" else 50, s))
+        out.append(("statement-level", c, 6 if tier == "quick" else 50, 0, s))
+    for c, s in zip(chunk(line_scns, n), split_seeds(seed + 123, n)):
+        out.append(("statement-level", c, 0, 8 if tier == "quick" else 100, s))
     if tier == "quick":
         for c, s in zip(chunk(pairs, n * 2), split_seeds(seed + 12, n * 2)):
             out.append((c, 1, 6, 0, s, None))
@@ -61,8 +63,8 @@ def reader_relaxation(runner, ob):
 
 def run_shard(*args):
     if args[0] == "statement-level":
-        _k, scns, n_line, sub_seed = args
-        return P.run_scenarios(scns, 0, 0, 0, sub_seed, SYMPTOMS, n_line=n_line, skip_dfs=True,
+        _k, scns, n_line, n_sync, sub_seed = args
+        return P.run_scenarios(scns, 0, 0, 0, sub_seed, SYMPTOMS, n_line=n_line, n_sync=n_sync, skip_dfs=True,
                                normalise=normalise_reader)
     scns, bound, n_random, pct, sub_seed, budget = args
     res = P.run_scenarios(scns, bound, n_random, pct, sub_seed, SYMPTOMS, budget=budget,
